@@ -4,6 +4,7 @@ import (
 	"encoding/json"
 	"go/token"
 	"go/types"
+	"strings"
 
 	"golang.org/x/tools/go/ssa"
 )
@@ -137,7 +138,8 @@ func forwardOf(g *ssa.Function) *forwardInfo {
 			isPath := false
 			if root, _, ok := fieldPathRaw(av); ok {
 				// a field of one of the wrapper's parameters (the receiver's configuration handed on)
-				if rp, isP := CellOrigin(Unwrap(root)).(*ssa.Parameter); isP && rp.Parent() == g {
+				// - only towards a function of the module (the body that was moved out), never a library call
+				if rp, isP := CellOrigin(Unwrap(root)).(*ssa.Parameter); isP && rp.Parent() == g && inner.Blocks != nil && inner.Pkg != nil && strings.HasPrefix(inner.Pkg.Pkg.Path(), ModPath) {
 					isPath = true
 				}
 			}
